@@ -43,11 +43,9 @@ def run(ctx):
                       CommitChoices=ctx.pick(BIG, ALL))
     _vlog.model_check(ctx, "two", _vlog.SCENARIO_INVS, TwoPhase="TRUE", HandleSteps="TRUE", CommitChoices=BIG,
                       MaxSteps=ctx.pick(6, 9), MaxCompactions=ctx.pick(1, 2))
-    # Reopens is broken by the repository (a torn value-log header makes open fail): counted here, bound in step 3
-    mc = _vlog.model_check(ctx, "crash", _vlog.CRASH_INVS, actions=CRASH_ACTIONS, cex=("CexReopens", "Reopens"), Granular="TRUE",
-                           MaxCrashes=ctx.pick(1, 2), Readers="{}", CursorKinds="{}", CommitChoices=BIG,
-                           MaxSteps=ctx.pick(7, 8), FileCap=ctx.pick(1, 2))
-    n_torn = mc["cex"]
+    _vlog.model_check(ctx, "crash", _vlog.CRASH_INVS, actions=CRASH_ACTIONS, Granular="TRUE",
+                      MaxCrashes=ctx.pick(1, 2), Readers="{}", CursorKinds="{}", CommitChoices=BIG,
+                      MaxSteps=ctx.pick(7, 8), FileCap=ctx.pick(1, 2))
     if not q:
         _vlog.model_check(ctx, "crashidx", _vlog.CRASH_INVS, Granular="TRUE", MaxCrashes=2, Readers="{}", CursorKinds="{}",
                           CommitChoices=BIG, MaxSteps=8, Versioning="TRUE", UseIndex="TRUE", Keys='{"k1"}')
@@ -63,12 +61,16 @@ def run(ctx):
                             CommitChoices=BIG, MaxCommits=2, MaxSteps=ctx.pick(7, 8), MaxCompactions=ctx.pick(1, 2))
     _vlog.export_and_replay(ctx, "cap2", ["--thr", "300", "--filecap", "2", "--plan", str(ctx.seed), "--full-checksum"],
                             FileCap=2, CommitChoices=BIG, MaxSteps=ctx.pick(5, 7))
-    # versions expiring under pinned range / history cursors. HistCursorIntact is broken by the repository (clean-up
-    # ignores open history cursors): the violating states' schedules are exported in the same run and must reproduce.
+    # versions expiring under pinned range / history cursors (clean-up waits for open cursors since 56ef569)
     _vlog.export_and_replay(ctx, "vers", ["--versioning", "--finite", "--plan", str(ctx.seed)],
                             cex=("CexHistCursor", "HistCursorIntact", "pinned_history_value_error"), Versioning="TRUE",
                             Finite="TRUE", CommitChoices='{"SetB"}', Keys='{"k1"}', CursorKinds='{"range", "hist"}',
                             MaxCommits=2, MaxSteps=10)
+    # teeth: the pinned behaviour (clean-up ignores open cursors) still breaks HistCursorIntact in the model; its
+    # schedules must pass on the repaired engine
+    _vlog.teeth(ctx, "hist", "CexHistCursor", "HistCursorIntact", ["--versioning", "--finite", "--plan", str(ctx.seed)],
+                Versioning="TRUE", Finite="TRUE", CommitChoices='{"SetB"}', Keys='{"k1"}', CursorKinds='{"hist"}',
+                MaxCommits=2, MaxSteps=10)
     # versioned index: its entries outlive the tables' (compaction does not touch it); clean-up must drop them with the files
     _vlog.export_and_replay(ctx, "idx", ["--versioning", "--finite", "--index", "--plan", str(ctx.seed)], Versioning="TRUE",
                             Finite="TRUE", UseIndex="TRUE", Keys='{"k1"}', CommitChoices=ctx.pick('{"SetB"}', BIG), MaxCommits=ctx.pick(2, 3),
@@ -92,13 +94,15 @@ def run(ctx):
                             MaxSteps=ctx.pick(16, 18))
     # ---- 3. crash images of recorded workloads, and the recorded operations against the trace spec -------------------
     results, tot = _vlog.run_sweep(ctx, ctx.pick(6, 30), ctx.pick(40, 220))
+    # teeth: the pinned behaviour (a value-log file shorter than its header is validated) still breaks Reopens in the
+    # model; the images with a torn header (every sweep builds them) open on the repaired engine, else the sweep reported them
+    _vlog.teeth(ctx, "torn", "CexReopens", "Reopens", None, Granular="TRUE", MaxCrashes=1, Readers="{}", CursorKinds="{}",
+                CommitChoices='{"SetB"}', Keys='{"k1"}', MaxCommits=2, MaxSteps=6)
     refused = sum(1 for r in results for v in r["violations"] if v["class"] == "reopen_refused" and v.get("torn_header"))
     ctx.cov["crash_sweep"]["refused_with_torn_header"] = refused
-    if n_torn and not refused:
-        raise core.ToolError("the model breaks Reopens (a torn value-log header makes open fail, %d states) but no crash image "
-                             "reproduces it on the real engine: the model no longer describes the code" % n_torn)
-    if refused and not n_torn:
-        ctx.drift(1, "crash images with a torn value-log header are refused but the model (HeaderCheck) says they open")
+    ctx.cov["crash_sweep"]["torn_header_images"] = sum(r.get("torn_images", 0) for r in results)
+    if ctx.cov["crash_sweep"]["torn_header_images"] == 0:
+        raise core.ToolError("the crash sweep built no image with a torn value-log header (vacuous for Reopens)")
     _vlog.validate_traces(ctx, results)
     ctx.cov["exhaustive"] = True
     ctx.cov["rule"] = ("edge cover of the bounded Vlog state graph + random behaviours (-simulate), each replayed on a real Tree; "
